@@ -381,7 +381,7 @@ func c7paths(v cue.Value, r *Rng, max int) []cue.Path {
 //     listed as known: a failure of a plain program is always a violation.
 
 var (
-	c7rePredeclLabel  = regexp.MustCompile(`(?m)(^|[{,]\s*|:\s+)(string|int|bytes|bool|float|number|uint|u?int(8|16|32|64|128)|float(32|64)|rune|len|close|and|or|div|mod|quo|rem|self|error|matchN|matchIf)[?!]?:`)
+	c7rePredeclLabel  = regexp.MustCompile(`(?m)(^\s*|[{,]\s*|:\s+)(string|int|bytes|bool|float|number|uint|u?int(8|16|32|64|128)|float(32|64)|rune|len|close|and|or|div|mod|quo|rem|self|error|matchN|matchIf)[?!]?:`)
 	c7reKeywordTop    = regexp.MustCompile(`(?m)^(import|package)[?!]?:`)
 	c7reRefName       = regexp.MustCompile(`reference "?([^" ]+)"? not found`)
 	c7reLet           = regexp.MustCompile(`\blet\s+[A-Za-z_#]`)
@@ -393,9 +393,25 @@ var (
 	c7reMarkedRefDisj = regexp.MustCompile(`[a-z#_][A-Za-z0-9_#]*\s*\|\s*\*|\*[a-z#_][A-Za-z0-9_#]*\s*\|`)
 	c7reAttr          = regexp.MustCompile(`@[a-zA-Z_][a-zA-Z0-9_:]*\((?:[^()"]|"(?:[^"\\]|\\.)*"|\((?:[^()"]|"(?:[^"\\]|\\.)*")*\))*\)`)
 	c7reAliasTop      = regexp.MustCompile(`(?m)^[A-Za-z_][A-Za-z0-9_]*=[{\[("A-Za-z0-9]`)
+	c7reSanitizeLet   = regexp.MustCompile(`(?m)^\s*let ([A-Za-z_#][A-Za-z0-9_#]*)_[0-9A-F]+ = ([A-Za-z_#][A-Za-z0-9_#.]*)$`)
 	c7reClosedFlags   = regexp.MustCompile(`\}A[01][01]R?`)
 	c7reEmbedScalar   = regexp.MustCompile(`(?m)^\s*(string|int|bytes|bool|float|number|_|"[^"]*"|-?[0-9][0-9.]*)\s*$`)
 )
+
+// c7sanitizeLet: the output holds `let NAME_<hex> = …NAME` — the renaming astutil.Sanitize /
+// the exporter introduce for a reference they consider shadowed.
+func c7sanitizeLet(out string) bool {
+	for _, m := range c7reSanitizeLet.FindAllStringSubmatch(out, -1) {
+		last := m[2]
+		if i := strings.LastIndexByte(last, '.'); i >= 0 {
+			last = last[i+1:]
+		}
+		if last == m[1] {
+			return true
+		}
+	}
+	return false
+}
 
 func c7kind5(kind string) string {
 	switch {
@@ -434,19 +450,22 @@ func c7classOf(pf c7profile, sub bool, path string, rt c7rt, src string) string 
 		return "keyword-label-import-or-package-unquoted-at-file-level"
 	}
 	if c7rePredeclLabel.MatchString(out) {
-		return "unquoted-label-shadows-predeclared-identifier:" + k5
+		return "unquoted-label-shadows-predeclared-identifier"
 	}
-	if strings.Contains(out, "] & {}") && k5 == "rejected" {
-		return "list-literal-holding-let-unified-with-empty-struct"
+	if (strings.Contains(out, "] & {}") || strings.Contains(out, ") & {}")) && c7reLet.MatchString(out) && k5 != "unresolved" && k5 != "noparse" {
+		return "non-struct-value-holding-let-unified-with-empty-struct"
 	}
-	if strings.Contains(out, "& close({})") && k5 == "rejected" {
+	if c7sanitizeLet(out) && k5 != "noparse" {
+		return "shadowing-repair-binds-inner-reference-to-outer-field-of-the-same-name"
+	}
+	if strings.Contains(out, "& close({})") {
 		return "close-call-duplicated-as-close-of-empty-struct"
 	}
 	if k5 == "unresolved" && strings.Contains(rt.detail, "let[]") {
 		return "hoisted-let-refers-to-itself-or-to-later-binding"
 	}
 	if strings.Contains(out, "_#def") {
-		return "definition-wrapper-_#def:" + k5
+		return "definition-wrapper-_#def-changes-or-breaks-the-value"
 	}
 	if k5 == "differs" && sub && c7reClosedFlags.ReplaceAllString(rt.canonA, "") == c7reClosedFlags.ReplaceAllString(rt.canonB, "") {
 		return "subvalue:closedness-of-enclosing-definition-lost"
@@ -475,8 +494,11 @@ func c7classOf(pf c7profile, sub bool, path string, rt c7rt, src string) string 
 	if sub && strings.HasPrefix(rt.canonA, "V:struct.") {
 		return "subvalue:struct-validator-printed-at-file-level"
 	}
+	if mode == "raw" && strings.HasPrefix(strings.TrimSpace(out), "close({") {
+		return "raw:root-value-printed-inside-close-call"
+	}
 	if strings.Contains(out, "//cue:path:") {
-		return "subvalue:out-of-scope-reference-hoisted-into-let:" + k5
+		return "subvalue:out-of-scope-reference-hoisted-into-let"
 	}
 	if k5 == "differs" && (strings.Contains(src, "& {}") || strings.Contains(src, "{} &")) && !strings.Contains(out, "& {}") && !strings.Contains(out, "{} &") {
 		return "empty-struct-conjunct-dropped"
